@@ -723,6 +723,8 @@ func blocksAndPreprocessingFromCFG(pass *analysishelper.EnhancedPass, graph *cfg
 			blocks[i].Succs = append(blocks[i].Succs, blocks[numBlocks])
 		}
 	}
+	// - loops that are never left and span more than one block (e.g., `for { if c() { ... } }`)
+	linkEndlessLoopsToReturn(blocks)
 
 	// generate pre-processing
 	preprocessing := make([]*preprocessPair, len(blocks))
@@ -792,6 +794,66 @@ func blocksAndPreprocessingFromCFG(pass *analysishelper.EnhancedPass, graph *cfg
 	}
 
 	return blocks, preprocessing
+}
+
+// linkEndlessLoopsToReturn adds the "return" block (the last block of `blocks`) as a successor of
+// one plain unconditional jump in every loop from which the "return" block is not reachable, such
+// as `for { if c() { ... } }`. The backpropagation starts from the "return" block, so without
+// this link it would never visit the blocks of such a loop and the blocks that lead only into it,
+// and the nil flows inside them would go unnoticed. Blocks that end the execution (e.g., with a
+// call to `panic`) have no successors and are left untouched.
+func linkEndlessLoopsToReturn(blocks []*cfg.Block) {
+	retBlock := blocks[len(blocks)-1]
+
+	for {
+		preds := make([][]int32, len(blocks))
+		for _, b := range blocks {
+			for _, succ := range b.Succs {
+				preds[succ.Index] = append(preds[succ.Index], b.Index)
+			}
+		}
+		// canReach returns, for every block, whether `target` is reachable from it.
+		canReach := func(target *cfg.Block) []bool {
+			reach := make([]bool, len(blocks))
+			reach[target.Index] = true
+			for work := []int32{target.Index}; len(work) > 0; {
+				cur := work[len(work)-1]
+				work = work[:len(work)-1]
+				for _, pred := range preds[cur] {
+					if !reach[pred] {
+						reach[pred] = true
+						work = append(work, pred)
+					}
+				}
+			}
+			return reach
+		}
+
+		reachesRet := canReach(retBlock)
+		linked := false
+		for _, b := range blocks {
+			// We can only add a successor to a plain unconditional jump: the two successors of a
+			// block that ends with an expression are understood as the branches of a condition,
+			// and a block that ends with a range expression must be followed by its loop only.
+			if !b.Live || reachesRet[b.Index] || len(b.Succs) != 1 || getRangeExpr(b) != nil {
+				continue
+			}
+			if n := len(b.Nodes); n > 0 {
+				if _, ok := b.Nodes[n-1].(ast.Expr); ok {
+					continue
+				}
+			}
+			// The block must lie on a cycle, i.e., its successor leads back to it.
+			if canReach(b)[b.Succs[0].Index] {
+				b.Succs = append(b.Succs, retBlock)
+				linked = true
+				break
+			}
+		}
+		if !linked {
+			return
+		}
+	}
 }
 
 // nonnil(idents, result 0)
